@@ -33,7 +33,8 @@ func runFault() *ShardResult {
 		}
 		return append(ops, core.Op{K: "S", Key: "k1", Val: []byte("v")})
 	}
-	cont := func(m *core.Model, failed *core.Op) []core.Op {
+	cont := faultCont
+	_ = func(m *core.Model, failed *core.Op) []core.Op {
 		var ops []core.Op
 		if failed != nil {
 			ops = append(ops, *failed) // retry the call that failed
@@ -112,4 +113,20 @@ func runFault() *ShardResult {
 		res.Sets["states"] = append(res.Sets["states"], o)
 	}
 	return res
+}
+
+// faultCont is the continuation after the workload: retry the call that
+// failed, one more append, one stable write.
+func faultCont(m *core.Model, failed *core.Op) []core.Op {
+	var ops []core.Op
+	if failed != nil {
+		ops = append(ops, *failed)
+	}
+	next := m.Last + 1
+	if m.Last == 0 {
+		next = 1
+	}
+	ops = append(ops, core.Op{K: "A", Idx: next, Sizes: []int{12}, Gen: 50})
+	ops = append(ops, core.Op{K: "S", Key: "k2", Val: []byte("w")})
+	return ops
 }
